@@ -90,6 +90,7 @@ def jfres : FRes → Json
   | .bail => "bail"
   | .crash => "crash"
   | .fuel => "fuel"
+  | .recursion => "recursion"
 
 def answer (M : ModuleDesc) (refs : List Ref) (frefs : List FRef) : Json :=
   match resolveSymbols M refs frefs with
